@@ -299,7 +299,7 @@ def r_success_guard(ctx):
                 else:
                     ctx.violation('%s:discarded-unguarded' % f.qualname, f.loc(c), 'DISCARDED reported without the term mismatch / with a result', instance=inst)
     ctx.require(n_sites > 0, 'nobody reports FAIL_REASON.SUCCESS to a callback')
-    ctx.expect_min(2)
+    ctx.expect_min(1)
 
 
 def _aliases(fs, t, key):
